@@ -12,11 +12,11 @@ META = {
     "assumptions": ["rows consist of letters and '-' and contain at least one residue"],
 }
 
-def rt_inst(fmt, ns, aln, nls, sym_names=False, win=None, kind=None, prefix_names=False, **kw):
+def rt_inst(fmt, ns, aln, nls, sym_names=False, win=None, kind=None, prefix_names=False, long_names=False, **kw):
     nblocks = (aln + 59) // 60
     lb_lines = 10 + ns + nblocks * (ns + 1) + 2
     out_lines = lb_lines + nblocks + 4 + ns * (nblocks + 1)
-    w = max(48, min(aln, 60) + max(nls) + 8)
+    w = max(48, min(aln, 60) + max(nls) + 8, (max(nls) + 44) if fmt == 2 else 0)
     d = {"VK_FMT": fmt, "VK_NS": ns, "VK_ALN": aln, "VK_NL1": nls[0], "VK_NL2": nls[1], "VK_LB_LINES": lb_lines,
          "VK_OUT_LINES": out_lines, "VK_OUT_W": w, "VK_QSORT_MAX": lb_lines, "VK_MAXROWS": ns,
          "VK_STR_MAX": w + 2, "VK_NAME_CAP": 8, "VK_MSA_CAP": ns + 1, "VK_SEQ_CAP": aln + 2}
@@ -28,13 +28,16 @@ def rt_inst(fmt, ns, aln, nls, sym_names=False, win=None, kind=None, prefix_name
         d["VK_KIND"] = kind
     if prefix_names:
         d["VK_PREFIX_NAMES"] = None
+    if long_names:
+        d.update({"VK_LONG_NAMES": None, "VK_NLMAX": max(nls), "VK_NAME_CAP": 256})
+        kw.setdefault("flags", ["--max-field-sensitivity-array-size", "600"])
     if win:
         d["VK_WIN_LO"], d["VK_WIN_HI"] = win
     fname = {1: "fasta", 2: "msf", 3: "clu"}[fmt]
     return Inst(ob="O1", name="rt_%s_ns%d_aln%d_n%s%s" % (fname, ns, aln, "".join(map(str, nls)), ("_sym" if sym_names else "") + ("_win%d_%d" % win if win else "") + ("" if kind is None else "_k%d" % kind) + ("_pfx" if prefix_names else "")), harness="c06_roundtrip.c",
                 defs=d, srcs=IO_SRCS, models=IO_MODELS, native_srcs=IO_NATIVE,
                 gi_args=["--replace-calls", "alloc_line_buffer:vk_alloc_line_buffer"],
-                flags=["--max-field-sensitivity-array-size", "256"],
+                flags=kw.pop("flags", ["--max-field-sensitivity-array-size", "256"]),
                 unwind=max(aln + 6, 2 * out_lines + 2, w + 4, 102), unwind_pat=MK_MSA_UNWIND + [("alloc_msa", r"i < 128", 129)],
                 solver=("cadical" if fmt == 2 else "minisat"), nb=2 + ns * (aln + 3), timeout=kw.pop("timeout", 600), mem_gb=kw.pop("mem_gb", 8),
                 funcs=["kalign_write_msa", "detect_alignment_format", {1: "write_msa_fasta", 2: "write_msa_msf", 3: "write_msa_clu"}[fmt],
@@ -61,6 +64,9 @@ def instances(tier):
         for nls in ((1, 2, 1), (2, 1, 1)) + (((1, 2, 3), (3, 2, 1)) if tier != "quick" else ()):
             ns = 3 if nls[2] == 3 or nls[0] == 3 else 2
             out.append(rt_inst(fmt, ns, 2, nls, prefix_names=True, kind=(1 if fmt == 2 else None)))
+    # long names (the property claims 1..200 characters): concrete characters, one name of 130 / 200 characters
+    for fmt, nl in ([(3, 130), (2, 130)] if tier == "quick" else [(1, 200), (3, 130), (3, 200), (2, 130), (2, 200), (3, 127), (3, 128)]):
+        out.append(rt_inst(fmt, 2, 2, (nl, 1, 1), long_names=True, kind=(1 if fmt == 2 else None), timeout=900))
     # FASTA with SYMBOLIC name characters from [A-Za-z0-9_.|-] (Clustal with symbolic names runs out of 8 GB: the layout becomes symbolic)
     out.append(rt_inst(1, 2, 2, (2, 1, 1), sym_names=True))
     if tier != "quick":
